@@ -4,8 +4,8 @@
 # sweep can run next to regular checks.  Writes seeded/RESULTS.md.
 cd "$(dirname "$0")/.." || exit 2
 NAMES="$@"; [ -z "$NAMES" ] && NAMES=$(ls seeded | grep -v RESULTS)
-WT=/tmp/_seeded_wt; git -C /repo worktree remove --force $WT 2>/dev/null; git -C /repo worktree add --detach -q $WT HEAD || exit 2
-OUTF=/tmp/_res_wt.md
+WT=/tmp/_seeded_wt_$$; git -C /repo worktree remove --force $WT 2>/dev/null; git -C /repo worktree add --detach -q $WT HEAD || exit 2
+OUTF=/tmp/_res_wt_$$.md
 echo "| seeded change | property | check exit | verdict line |" > $OUTF; echo "|---|---|---|---|" >> $OUTF
 for N in $NAMES; do
   P=${N%%-*}
@@ -16,5 +16,5 @@ for N in $NAMES; do
   echo "| $N | $P | $RC | ${V:-none} |" >> $OUTF
   echo "$N rc=$RC ${V:-none}"
 done
-cp $OUTF seeded/RESULTS.md
+cp $OUTF ${VERIF_RESULTS_OUT:-seeded/RESULTS.md}
 git -C /repo worktree remove --force $WT
